@@ -208,6 +208,12 @@ def run_http(ctx, shape, scheme, ctype, fault, tls, blen, pol=0):
         opaque = object()
         target = {'name': 'srv1', 'nested': {'a': [1, {'b': 'c'}]},
                   'opaque': opaque, 'project_id': 'p'}
+        debug = bool(ctx.bool('debug_logging'))
+        if bool(ctx.bool('secret_looking_keys')):
+            # what the library's debug dump would mask must still reach the
+            # remote side unchanged
+            target['admin_password'] = 's3cret'
+            target['nested']['auth_token'] = 'tok'
         inner = None
         if ctype == 'application/json' and bool(ctx.bool('nested_opaque')):
             # only the JSON encoding can carry a nested opaque object (the
@@ -218,12 +224,26 @@ def run_http(ctx, shape, scheme, ctype, fault, tls, blen, pol=0):
                               if k not in ('opaque', 'deep')})
         roles = ctx.roles('role', ['admin', 'member'], eager=True)
         creds = {'roles': roles, 'user_id': 'u', 'project_id': 'p'}
+        if 'admin_password' in target:
+            creds['token'] = 'tok2'
+            creds['password'] = 'pw'
         raised = None
+        import logging
+        if debug:
+            logging.disable(logging.NOTSET)
+            policy.LOG.setLevel(logging.DEBUG)
+            if not policy.LOG.handlers:
+                policy.LOG.addHandler(logging.NullHandler())
+            policy.LOG.propagate = False
         try:
             got = bool(enf.enforce(pol, target, creds))
         except Exception as exc:
             raised = type(exc).__name__
             got = None
+        finally:
+            if debug:
+                policy.LOG.setLevel(logging.NOTSET)
+                logging.disable(logging.CRITICAL)
         called = bool(stub.calls)
         # -- oracle -----------------------------------------------------------
         ok = _body_ok(body)
